@@ -358,6 +358,16 @@ func dropCheck(p *load.Program, fn *ssa.Function, opts dropOpts) (bad []dropFind
 					if s.NilOf(rv) == ssax.NonNil {
 						return // another, definitely non-nil error takes precedence
 					}
+					// … also through a wrapper that returns non-nil whenever its error argument is non-nil
+					if wc, ok := rv.(*ssa.Call); ok {
+						if callee := ssax.StaticCallee(wc); callee != nil && p.InModule(callee) {
+							for ai, a := range wc.Call.Args {
+								if ssax.IsErrorType(a.Type()) && s.NilOf(a) == ssax.NonNil && nonNilWhenArgNonNil(callee, ai) {
+									return
+								}
+							}
+						}
+					}
 					what := "a value that may be nil"
 					if ssax.IsNilConst(rv) || s.NilOf(rv) == ssax.IsNil {
 						what = "nil"
@@ -499,4 +509,37 @@ func fillsReturnedSlice(e ssa.Value, r *ssa.Return, s *ssax.PathState) bool {
 		}
 	}
 	return false
+}
+
+
+// nonNilWhenArgNonNil: every return of callee hands back a definitely non-nil error, except returns that are
+// dominated by "parameter ai == nil" (the wrapper idiom: if err == nil { return nil }; return &T{…, Err: err}).
+func nonNilWhenArgNonNil(callee *ssa.Function, ai int) bool {
+	if callee == nil || callee.Blocks == nil || ai >= len(callee.Params) {
+		return false
+	}
+	eidx := ssax.ErrorResultIndex(callee.Signature)
+	if eidx < 0 {
+		return false
+	}
+	prm := ssa.Value(callee.Params[ai])
+	for _, r := range ssax.Returns(callee) {
+		e := r.Results[eidx]
+		if definitelyNonNilErr(e) {
+			continue
+		}
+		if e == prm {
+			continue // returns the argument itself
+		}
+		underNil := false
+		for _, f := range ssax.FactsAtInstr(r) {
+			if x, eq, ok := ssax.NilTest(f.Cond); ok && x == prm && eq == f.Val {
+				underNil = true
+			}
+		}
+		if !underNil {
+			return false
+		}
+	}
+	return true
 }
